@@ -27,14 +27,15 @@ PROPERTY = "C09"
 LEAN_TARGETS = ["Ipv8.C09.Props"]
 PROPS_FILE = "Ipv8/C09/Props.lean"
 DRIVER = "drv_c09"
-RULE = ("(post-mortem data cells 1-4.75 s after the teardown and nodes whose own circuit building keeps failing are "
-        "scenario dimensions too) a case = one scenario on 4-6 real TunnelCommunity nodes under the virtual clock: hops in 1..3, phase in "
-        "{half-built, ready, mid-transfer}, teardown by {originator destroy, originator abandon, originator dies, "
-        "relay destroy, relay dies, exit destroy, exit dies, none}, a fault plan (drop / duplicate / delay of "
-        "destroy, create(d), extend(ed) and relayed cells on chosen links; exhaustive subsets of <= 3 dropped "
-        "teardown/build messages in the thorough tier), optional join-limit and relay_early stress; distinct = "
-        "distinct (hops, phase, teardown, fault plan, stress); non-trivial = at least one routing entry existed on a "
-        "node other than the originator when the teardown/abandonment happened")
+RULE = ("a case = one run on 4-6 real TunnelCommunity nodes under the virtual clock. Scenario cases: hops 1..3, phase "
+        "{half-built, ready, mid-transfer}, teardown {originator destroy / destroy with reason 0 / abandon / dies, relay "
+        "destroy / dies, exit destroy / dies, none}, teardown time, node count, fault plan (drop / duplicate / delay of "
+        "destroy, create(d), extend(ed), relayed, ping/pong, data cells by kind, occurrence index and optionally "
+        "source/destination node), outside chatter, traffic-limit hit, payload kind (allowed / refused by the exit "
+        "policy / speed test), post-mortem data cells, nodes whose own circuit building fails; plus join-limit, "
+        "relay_early and age-limit (3600 s) runs. distinct = distinct value of ALL these spec fields (so two cases "
+        "that differ only in teardown time or node count count as distinct); non-trivial = a routing entry existed on "
+        "a node other than the originator when the teardown happened (special runs: always)")
 TRUSTED_BASE = [
     "tools/gen_c09.py (AST subset translator for the sweep/join/budget/give-up conditions and the settings)",
     "hand-written per-node model Ipv8/C09/Model.lean, tied to the code by the virtual-clock correspondence run",
@@ -53,7 +54,7 @@ ASSUMPTIONS = [
 TPS = gen_c09.TPS
 SWEEP_ALLOWANCE_S = 5      # frozen: the property's bound allows one 5 s sweep period on top of the configured limits
 BT_DATA = b"d1:ad2:id20:abcdefghij0123456789e1:q4:ping1:t2:aa1:y1:qe"
-JUNK_DATA = b"\xff" * 30
+JUNK_DATA = b"\xff" * 30      # neither BT-like nor IPv8-like: the exit policy refuses it
 
 
 def generate(ctx: Ctx):
@@ -104,6 +105,7 @@ class World:
         self.keylabel = {}
         self.addrlabel = {}
         self.torn_at = None
+        self.transports = []      # (owner exit socket, transport) of every datagram endpoint the loop created
 
     # ---- time --------------------------------------------------------------------------------------
     def ticks(self) -> int:
@@ -140,7 +142,7 @@ class World:
             self.addrlabel[node.endpoint.lan_address] = lab
             self.pending[lab] = []
             self.ctx[lab] = None
-            self.outs[lab] = {"D": [], "F": [], "P": [], "J": []}
+            self.outs[lab] = {"D": [], "F": [], "P": [], "J": [], "S": []}
             self.exit_socks[lab] = []
             self.flat.append((f"node {lab} {self.starts[-1]}", None, None))
             self.tap(lab, node)
@@ -150,6 +152,14 @@ class World:
                 if a is not b:
                     a.overlay.walk_to(b.endpoint.wan_address)
         await asyncio.sleep(4 / TPS)
+        # discovery order depends on hash order of random keys: re-insert the candidates in label order so that
+        # path selection only depends on the seeded `random` module
+        for node in self.nodes:
+            ov = node.overlay
+            items = sorted(ov.candidates.items(), key=lambda kv: self.label_key(kv[0].public_key.key_to_bin()))
+            ov.candidates.clear()
+            for peer, flags in items:
+                ov.candidates[peer] = sorted(flags)
 
     def label_key(self, key_bin) -> int:
         return self.keylabel.get(key_bin, 0)
@@ -238,12 +248,14 @@ class World:
                         p, _ = ov.serializer.unpack_serializable(DataPayload, data, offset=23)
                         sent = False
                         es = ov.exit_sockets.get(circuit_id)
-                        if es is not None and tuple(p.dest_address) != ("0.0.0.0", 0):
+                        foreign = es is not None and not es.enabled and source[0] != es.hop.address[0]
+                        if es is not None and not foreign and tuple(p.dest_address) != ("0.0.0.0", 0):
                             sent = bool(es.is_allowed(p.data))
                             if not es.enabled:
                                 world.count("exit_enabled_by_data:" + ("after_teardown" if world.torn_at is not None
                                                                        else "before_teardown"))
-                        rec["body"] = ["data", int(sent)]
+                        # (exit_data refuses to enable the socket for a foreign source address: no effect at all)
+                        rec["body"] = ["other"] if foreign else ["data", int(sent)]
                     elif mid == TestRequestPayload.msg_id:
                         rec["body"] = ["testreq"]
                     else:
@@ -325,7 +337,8 @@ class World:
                 payload = ov.serializer.unpack_serializable_list([DestroyPayload], remainder, offset=23)[0]
                 if not valid:
                     raise ValueError("bad signature")
-                log({"k": "destroy", "id": payload.circuit_id, "peer": world.label_key(auth.public_key_bin)})
+                log({"k": "destroy", "id": payload.circuit_id, "peer": world.label_key(auth.public_key_bin),
+                     "fwd": int(payload.reason != 0)})
             except Exception as e:
                 world.count("destroy:undecodable:" + type(e).__name__)
             return orig_destroy(source, data)
@@ -370,6 +383,14 @@ class World:
         def send_cell(target, cell):
             kind = cell.message[0] if cell.message else -1
             world.sendkind[lab] = (kind, None)
+            if kind in (3, 5, 7):
+                world.outs[lab]["S"].append((kind, cell.circuit_id))
+            if kind == 6:
+                c0 = ce.circuits.get(cell.circuit_id)
+                if c0 is not None and c0._closing:
+                    world.oracle.append(("do_ping:ping-for-closing-circuit",
+                                         f"node {lab} pings circuit {cell.circuit_id} although it is closing: an "
+                                         f"abandoned circuit keeps refreshing every hop during its removal delay"))
             known = cell.circuit_id in ce.circuits or cell.circuit_id in ce.relays or cell.circuit_id in ce.exit_sockets
             if not known and kind not in (CreatePayload.msg_id,):
                 world.oracle.append(("send_cell:cell-for-vanished-entry",
@@ -522,6 +543,12 @@ class World:
         ov = self.ov(lab)
         if circuit.circuit_id not in ov.circuits or not circuit.hops:
             return
+        if data is None:
+            self.count("user:speedtest")
+            fut = ov.send_test_request(circuit, 8, 8)
+            fut.add_done_callback(lambda f: f.cancelled() or f.exception())
+            return
+        self.count("user:data:" + ("allowed" if data == BT_DATA else "refused_by_exit_policy"))
         ov.send_data(circuit.hop.address, circuit.circuit_id, ("127.0.0.1", port), ("0.0.0.0", 0), data)
 
     def set_traffic(self, lab, tbl, cid, amount):
@@ -569,15 +596,14 @@ class World:
             c = ov.circuits[cid]
             cache = ov.request_cache.get(RetryRequestCache, cid)
             tries = "-" if cache is None else str(max(0, cache.max_tries))
-            cs.append(f"{cid}:{int(bool(c._closing))}:{len(c.hops)}:{tries}")
-        rs = [f"{cid}>{ov.relay_from_to[cid].circuit_id}" for cid in sorted(ov.relay_from_to)]
-        xs = [f"{cid}:{int(bool(ov.exit_sockets[cid].enabled))}" for cid in sorted(ov.exit_sockets)]
-        leaked = 0
-        for es in self.exit_socks[lab]:
-            if ov.exit_sockets.get(es.circuit_id) is not es and self.sock_open(es):
-                leaked += 1
+            cs.append(f"{cid}:{int(bool(c._closing))}:{len(c.hops)}:{tries}@{self.tick_of(c.creation_time)}")
+        rs = [f"{cid}>{ov.relay_from_to[cid].circuit_id}@{self.tick_of(ov.relay_from_to[cid].creation_time)}"
+              for cid in sorted(ov.relay_from_to)]
+        xs = [f"{cid}:{int(bool(ov.exit_sockets[cid].enabled))}@{self.tick_of(ov.exit_sockets[cid].creation_time)}"
+              for cid in sorted(ov.exit_sockets)]
+        leaked = len(self.leaked_sockets(lab))
         o = self.outs[lab]
-        self.outs[lab] = {"D": [], "F": [], "P": [], "J": []}
+        self.outs[lab] = {"D": [], "F": [], "P": [], "J": [], "S": []}
 
         def dup(l):
             d = {}
@@ -586,14 +612,35 @@ class World:
             return ",".join(f"{k}*{v}" for k, v in sorted(d.items()))
         return (f"C[{','.join(cs)}] R[{','.join(rs)}] X[{','.join(xs)}] L{leaked} "
                 f"D[{','.join(f'{p}:{i}' for p, i in sorted(o['D']))}] F[{dup(o['F'])}] P[{dup(o['P'])}] "
-                f"J[{','.join(str(x) for x in sorted(o['J']))}]")
+                f"J[{','.join(str(x) for x in sorted(o['J']))}] "
+                f"S[{','.join(f'{k}:{i}*{n}' for (k, i), n in sorted(self.dupd(o['S']).items()))}]")
 
     @staticmethod
-    def sock_open(es) -> bool:
-        for t in (es.transport_ipv4, es.transport_ipv6):
-            if t is not None and not t.is_closing():
-                return True
-        return False
+    def dupd(l):
+        d = {}
+        for x in l:
+            d[x] = d.get(x, 0) + 1
+        return d
+
+    def tick_of(self, t) -> int:
+        return round((t - self.base) * TPS)
+
+    def open_transports(self, lab):
+        """(exit socket, transport) for every UDP transport opened through the event loop on behalf of node `lab` that
+        is not closed - recorded when the loop creates it, whatever the owner did with the reference afterwards"""
+        ov = self.ov(lab)
+        return [(es, t) for es, t in self.transports if getattr(es, "overlay", None) is ov and not t.is_closing()]
+
+    def leaked_sockets(self, lab):
+        """exit sockets with an open outside transport that the node's table no longer accounts for"""
+        ov = self.ov(lab)
+        out = []
+        for es, t in self.open_transports(lab):
+            held = ov.exit_sockets.get(getattr(es, "circuit_id", None)) is es and \
+                (es.transport_ipv4 is t or es.transport_ipv6 is t)
+            if not held and all(es is not x for x in out):
+                out.append(es)
+        return out
 
     @staticmethod
     def fmt(rec) -> str:
@@ -611,7 +658,7 @@ class World:
                 bs = " ".join(str(x) for x in b)
             return f"cell {rec['id']} {int(rec['early'])} {int(rec['plain'])} {int(rec['ok'])} {bs}"
         if k == "destroy":
-            return f"destroy {rec['id']} {rec['peer']}"
+            return f"destroy {rec['id']} {rec['peer']} {rec['fwd']}"
         if k in ("rmc", "rmr"):
             return f"{k} {rec['id']} {int(rec['destroy'])}"
         if k == "rmx":
@@ -644,9 +691,8 @@ class World:
             ov = self.ov(lab)
             if ov.circuits or ov.relay_from_to or ov.exit_sockets:
                 bad.append((lab, sorted(ov.circuits), sorted(ov.relay_from_to), sorted(ov.exit_sockets)))
-            for es in self.exit_socks[lab]:
-                if self.sock_open(es):
-                    bad.append((lab, "open exit socket", es.circuit_id))
+            for es, t in self.open_transports(lab):
+                bad.append((lab, "open exit socket", getattr(es, "circuit_id", None), str(t.get_extra_info("sockname"))))
         return bad
 
     async def shutdown(self):
@@ -664,13 +710,17 @@ class World:
                     await es.close()
                 except Exception:
                     pass
+        for _, t in self.transports:
+            if not t.is_closing():
+                t.close()
         mock_ep.internet.clear()
 
 
 # ======================================================================================================
 #  scenarios
 # ======================================================================================================
-TEARDOWNS = ["o_destroy", "o_abandon", "o_dies", "relay_destroy", "relay_dies", "exit_destroy", "exit_dies", "none"]
+TEARDOWNS = ["o_destroy", "o_abandon", "o_dies", "relay_destroy", "relay_dies", "exit_destroy", "exit_dies", "none",
+             "o_destroy0"]   # o_destroy0: a (legacy) destroy with reason code 0, which relays do not pass on
 PHASES = ["ready", "transfer", "halfbuilt"]
 
 
@@ -689,8 +739,9 @@ def make_spec(rng, idx, forced=None):
         "faults": [],
         "chatty_outside": rng.random() < 0.5,
         "traffic_limit": rng.random() < 0.08,
-        "late_dup_create": False,
-        "stress": None,
+        # what the originator sends while transferring: BT-like data the exit lets out, data the exit policy refuses
+        # (no heartbeat at the exit), or speed-test requests
+        "payload": rng.choice(["bt", "bt", "bt", "junk", "mixed"]),
         # data cells sent by the originator 1 .. 4.75 s AFTER the teardown (post-mortem window of remove_tunnel_delay)
         "postmortem": sorted(rng.sample([16, 40, 104, 168, 232, 296], rng.choice([1, 2, 3]))) if rng.random() < 0.5 else [],
         # non-originator nodes that want circuits of their own but cannot build any (no candidate discovered yet):
@@ -709,8 +760,10 @@ def make_spec(rng, idx, forced=None):
             kinds = rng.choice([["destroy"], ["destroy"], ["relayed"], ["ping", "pong"], ["data"], ["destroy", "relayed"]])
         nth = sorted(rng.sample(range(6), rng.choice([1, 1, 2, 3]))) if rng.random() < 0.8 else None
         delay = 4 * rng.randrange(1, 8 * 16) if action in ("dup", "delay") else 0
+        link = rng.random() < 0.4
         spec["faults"].append({"action": action, "kinds": kinds, "nth": nth, "delay": delay,
-                               "src": None, "dst": None})
+                               "src": rng.randrange(1, spec["nodes"] + 1) if link and rng.random() < 0.7 else None,
+                               "dst": rng.randrange(1, spec["nodes"] + 1) if link and rng.random() < 0.7 else None})
     if spec["phase"] == "halfbuilt" and not any(set(f["kinds"]) & {"created", "extended", "extend", "create"}
                                                  for f in spec["faults"]):
         spec["faults"].append({"action": "drop", "kinds": [rng.choice(["created", "extended", "create", "extend"])],
@@ -724,7 +777,7 @@ def make_spec(rng, idx, forced=None):
 def spec_key(spec):
     return repr((spec["hops"], spec["phase"], spec["teardown"], spec["nodes"], spec["when"],
                  [(f["action"], f["kinds"], f["nth"], f["delay"], f["src"], f["dst"]) for f in spec["faults"]],
-                 spec["chatty_outside"], spec["traffic_limit"], spec["stress"], spec["late_dup_create"],
+                 spec["chatty_outside"], spec["traffic_limit"], spec.get("payload"),
                  spec.get("postmortem"), spec.get("wanting")))
 
 
@@ -787,7 +840,10 @@ async def run_scenario(world: World, spec, deadline_extra=0):  # noqa: C901, PLR
                 break
             continue
         if spec["phase"] == "transfer" and not torn and now == next_user:
-            world.user_data(1, circuit)
+            pl = spec.get("payload", "bt")
+            if pl == "mixed":
+                pl = world.rng.choice(["bt", "junk", "speedtest"])
+            world.user_data(1, circuit, {"bt": BT_DATA, "junk": JUNK_DATA, "speedtest": None}[pl])
             next_user += TPS
             continue
         if now == next_out:
@@ -843,6 +899,12 @@ async def run_scenario(world: World, spec, deadline_extra=0):  # noqa: C901, PLR
                 world.remove_circuit(1, cid, True)
             elif td == "o_abandon":
                 world.remove_circuit(1, cid, False)
+            elif td == "o_destroy0":
+                c0 = world.ov(1).circuits.get(cid)
+                world.remove_circuit(1, cid, False)
+                if c0 is not None and c0.hop is not None:
+                    world.ov(1).send_destroy(c0.hop.address, cid, 0)
+                    world.outs[1]["D"].pop()       # (sent by the harness on the node's behalf, not a model output)
             elif td == "o_dies":
                 world.kill(1)
             elif td == "relay_destroy" and relays:
@@ -858,7 +920,8 @@ async def run_scenario(world: World, spec, deadline_extra=0):  # noqa: C901, PLR
             # a circuit that is still healthy later on is given up by its user at t_final (see there)
             # deadline: retries of a half-built circuit can last (tries0 + goal) * next_hop_timeout
             build_bound = (cfgm["circuit_timeout"] // cfgm["next_hop_timeout"] + 1 + spec["hops"]) * cfgm["next_hop_timeout"]
-            t_final = odd(now + int(build_bound * TPS) + 4)
+            lead = build_bound if not info["built"] else 2
+            t_final = odd(now + int(lead * TPS) + 4)
             quiet = t_final + int((3 * B + 4) * TPS) + max_delay + deadline_extra
             end = quiet + ((2 - quiet) % 4)
             # make the end coincide with a checkpoint
@@ -953,6 +1016,40 @@ async def run_join_limit(world: World, spec):
     return True, {"final": world.tables_empty(), "held": held}
 
 
+async def run_age_limit(world: World, spec):
+    """a healthy, pinged circuit is kept for longer than max_time: the AGE limit (not inactivity) must reclaim the
+    originator's circuit and the exit socket although every heart keeps beating; the relay routes follow by inactivity"""
+    await world.build([False] + [True] * (spec["nodes"] - 1))
+    t = odd(world.ticks() + 4)
+    await asyncio.sleep((t - world.ticks()) / TPS)
+    circuit = world.create_circuit(1, spec["hops"])
+    if circuit is None:
+        raise InfraError("create_circuit returned None")
+    meta = world.meta
+    B = meta["max_time_inactive"] + SWEEP_ALLOWANCE_S + meta["remove_tunnel_delay"]
+    t0 = world.ticks()
+    end = t0 + int((meta["max_time"] + 3 * B + 4) * TPS)
+    cp = t0 + 2 + ((2 - (t0 + 2)) % 4)
+    step = 64 * TPS          # sparse checkpoints: one per 64 virtual seconds …
+    dense_from = t0 + int((meta["max_time"] - 10) * TPS)   # … and one per second around the age limit
+    alive_at_limit = None
+    while True:
+        await asyncio.sleep((cp - world.ticks()) / TPS)
+        world.checkpoint()
+        now = world.ticks()
+        if alive_at_limit is None and now >= t0 + int((meta["max_time"] - 6) * TPS):
+            alive_at_limit = circuit.circuit_id in world.ov(1).circuits and circuit.state == "READY"
+            world.count("age:circuit_still_ready_before_limit", int(bool(alive_at_limit)))
+        if now >= end:
+            break
+        cp += TPS if now >= dense_from else step
+        if cp > dense_from and now < dense_from:
+            cp = dense_from + ((2 - dense_from) % 4)
+    if not alive_at_limit:
+        raise InfraError("age scenario: the circuit did not stay alive until the age limit")
+    return True, {"final": world.tables_empty()}
+
+
 async def run_relay_early(world: World, spec):
     """a (misbehaving) originator keeps flagging its cells as relay_early: relays must stop forwarding them"""
     await world.build([False, True, True, True, True])
@@ -1008,6 +1105,23 @@ def run_case(ctx: Ctx, spec, use_model: bool, kind="scenario"):
     world.loop = loop
     world.base = loop.time()
     world.meta = META
+    orig_cde = loop.create_datagram_endpoint
+
+    async def create_datagram_endpoint(*a, **k):
+        transport, protocol = await orig_cde(*a, **k)
+        owner = getattr(getattr(protocol, "received_cb", None), "__self__", None)
+        world.transports.append((owner, transport))
+        return transport, protocol
+    loop.create_datagram_endpoint = create_datagram_endpoint
+    # packet identifiers come from `secrets`: make them a function of the seed as well
+    import ipv8.messaging.anonymization.caches as caches_mod
+
+    class SeededSecrets:
+        @staticmethod
+        def randbelow(n):
+            return wrng.randrange(n)
+    orig_secrets = caches_mod.secrets
+    caches_mod.secrets = SeededSecrets
     try:
         async def main():
             try:
@@ -1015,11 +1129,14 @@ def run_case(ctx: Ctx, spec, use_model: bool, kind="scenario"):
                     return await run_join_limit(world, spec)
                 if kind == "early":
                     return await run_relay_early(world, spec)
+                if kind == "age":
+                    return await run_age_limit(world, spec)
                 return await run_scenario(world, spec)
             finally:
                 await world.shutdown()
         nontrivial, info = loop.run_until_complete(main())
     finally:
+        caches_mod.secrets = orig_secrets
         vclock.uninstall()
         try:
             loop.close()
@@ -1102,7 +1219,7 @@ def exhaustive_specs():
                                       "faults": [{"action": "drop", "kinds": ["destroy"], "nth": list(sub), "delay": 0,
                                                   "src": None, "dst": None}] if sub else [],
                                       "chatty_outside": phase == "transfer", "traffic_limit": False,
-                                      "late_dup_create": False, "stress": None,
+                                      "payload": "bt",
                                       "postmortem": [40] if len(sub) % 2 else [], "wanting": "all" if r == 1 else "none"})
         for r in range(1, 4):
             for sub in itertools.combinations(range(4), r):
@@ -1112,8 +1229,8 @@ def exhaustive_specs():
                     specs.append({"hops": hops, "phase": "halfbuilt", "teardown": "none", "nodes": 5, "when": 20 * TPS,
                                   "faults": [{"action": "drop", "kinds": kinds, "nth": list(sub), "delay": 0,
                                               "src": None, "dst": None}],
-                                  "chatty_outside": False, "traffic_limit": False, "late_dup_create": False,
-                                  "stress": None, "postmortem": [], "wanting": "all" if r == 2 else "none"})
+                                  "chatty_outside": False, "traffic_limit": False, "payload": "bt",
+                                  "postmortem": [], "wanting": "all" if r == 2 else "none"})
     return specs
 
 
@@ -1133,6 +1250,17 @@ def run_all(ctx: Ctx, n_random, use_model, with_exhaustive):
                                                 "wanting": "all" if idx % 2 == 0 else "none"})
                 run_case(ctx, spec, use_model)
                 idx += 1
+        # duplicated relayed cells (the relay's AEAD rejects the replay after the opposite heart was beaten), a legacy
+        # destroy with reason 0, data the exit refuses
+        for hops, td, flt, pl in ((3, "o_abandon", [{"action": "dup", "kinds": ["relayed"], "nth": None, "delay": 416,
+                                                     "src": None, "dst": None}], "bt"),
+                                  (2, "o_destroy0", [], "bt"), (3, "o_destroy0", [], "mixed"),
+                                  (2, "exit_dies", [], "junk")):
+            run_case(ctx, make_spec(ctx.rng, idx, {"hops": hops, "teardown": td, "phase": "transfer", "faults": flt,
+                                                   "traffic_limit": False, "payload": pl, "postmortem": [16],
+                                                   "wanting": "none"}), use_model)
+            idx += 1
+        run_case(ctx, {"nodes": 4, "hops": 2}, use_model, kind="age")
         run_case(ctx, {"nodes": 4, "over": 5, "relayed": 0}, use_model, kind="join")
         run_case(ctx, {"nodes": 4, "over": 3, "relayed": 2}, use_model, kind="join")
         for hops in (2, 3):
@@ -1151,7 +1279,7 @@ def run_all(ctx: Ctx, n_random, use_model, with_exhaustive):
 def run(ctx: Ctx):
     if ctx.replay_input is not None:
         return replay(ctx, ctx.replay_input)
-    run_all(ctx, ctx.scale(140, 400), ctx.model_ok, ctx.thorough())
+    run_all(ctx, ctx.scale(240, 400), ctx.model_ok, ctx.thorough())
 
 
 def search(ctx: Ctx, reason: str):
